@@ -79,6 +79,10 @@ def run(ctx):
     from rules import c18, c10
     c18.r3(Renamed(ctx, "C18.R3", "C12.R11"), facts, "A")
     c10.r2(Renamed(ctx, "C10.R2", "C12.R12"), facts, "A")
+    # the pattern scanner never restarts from the beginning of the pattern (npos + 1): same rule as the template scanner, C19.R5d
+    from rules import c19
+    c19.search_never_starts_behind_npos(ctx, facts.need("quill::PatternFormatter::_generate_fmt_format_string", "A")[0], "C12.R13",
+                                        "_generate_fmt_format_string", floor=1)
 
 
 def targ_index(callee, fname):
@@ -174,6 +178,16 @@ def r2(ctx, facts, attrs):
     for buf in ("_formatted_named_args_buffer", "_formatted_log_message_buffer"):
         uses = [c for c in f.calls() if c["k"] == "CXXMemberCallExpr" and is_this_field(call_obj(c), buf)]
         clears = [c for c in uses if short(c["callee"]).endswith("::clear")]
+        # ... or by a member function of the formatter called from here that empties the buffer on every path before it touches it
+        # (the rebuild of the buffer extracted into a helper): the call then counts as the clear
+        for h in facts.callgraph("A").get(id(f), ()):
+            if h.cls != f.cls or h is f:
+                continue
+            hu = [c for c in h.calls() if c["k"] == "CXXMemberCallExpr" and is_this_field(call_obj(c), buf)]
+            hc = npos(h, [c for c in hu if short(c["callee"]).endswith("::clear")])
+            ho = npos(h, [c for c in hu if not short(c["callee"]).endswith("::clear")])
+            if hc and not h.g.exists_path([h.g.entry_node], [h.g.exit_node], avoid_nodes=hc) and all(h.g.dominates(hc, p_) for p_ in ho):
+                clears = clears + [c for c in f.calls() if c.get("callee") and short(c["callee"]) == h.short]
         reads = [c for c in uses if re.search(r"::(data|size|begin|end)$", short(c["callee"]))]
         writes_ = [c for c in f.calls(r"^std::back_inserter") if any(is_this_field(x, buf) for x in walk(c))]
         cp_ = npos(f, clears)
@@ -797,6 +811,20 @@ def r2_named_args_and_tags(ctx, facts):
     na = f.rec["params"][8]["did"]
     buf = "_formatted_named_args_buffer"
     apps = [c for c in f.calls(r"::append\b") if is_this_field(call_obj(c), buf)]
+    fmt_fn, hcalls = f, []
+    if not apps:
+        # the text is built by a member function called from format() with the statement's list (the loop extracted into a helper):
+        # the same obligations, stated for that function and the parameter that receives the list
+        cands = [h for h in facts.callgraph("A").get(id(f), ()) if h.cls == f.cls and h is not f and
+                 [c for c in h.calls(r"::append\b") if is_this_field(call_obj(c), buf)]]
+        if len(cands) == 1:
+            h = cands[0]
+            hcalls = [c for c in f.calls() if c.get("callee") and short(c["callee"]) == h.short]
+            ks = {k for c in hcalls for k, a_ in enumerate(c.get("args", [])) if var_ref(strip(a_, casts=True)) == na}
+            if hcalls and len(ks) == 1 and all(any(var_ref(strip(a_, casts=True)) == na for a_ in c.get("args", [])) for c in hcalls):
+                f, g = h, h.g
+                na = h.rec["params"][list(ks)[0]]["did"]
+                apps = [c for c in f.calls(r"::append\b") if is_this_field(call_obj(c), buf)]
     loops = [n for n in f.walk() if n["k"] in ("ForStmt", "WhileStmt", "CXXForRangeStmt") and any(in_subtree(c, n.get("body")) for c in apps)]
     if len(loops) != 1:
         raise AnalysisBroken("PatternFormatter::format: the loop that builds the named-args text was not recognised (%d candidates)" % len(loops))
@@ -852,16 +880,22 @@ def r2_named_args_and_tags(ctx, facts):
                              "(range-for form): not decided")
     nulls = branches_on_var_null(f, na)
     heads = g.positions(lp.get("cond")) if lp.get("cond") is not None else (g.positions(lp.get("range")) if lp.get("range") is not None else [])
-    sv = [c for c in f.calls(r"PatternFormatter::_set_arg_val<") if any(is_this_field(x, buf) for x in walk(c))]
-    svp = npos(f, sv)
+    sv = [c for c in fmt_fn.calls(r"PatternFormatter::_set_arg_val<") if any(is_this_field(x, buf) for x in walk(c))]
+    svp = npos(fmt_fn, sv)
+    tail = svp if fmt_fn is f else [g.exit_node]
     only_when_present = bool(nulls) and bool(heads) and not g.exists_path([g.entry_node], heads, avoid_edges=[(b, other(l)) for (b, l) in nulls]) and \
-        all(not g.exists_path([y for (y, l2) in g.succ.get(tnode(g, b), ()) if l2 == other(l)], svp, avoid_nodes=heads) for (b, l) in nulls)
-    after = bool(svp) and not g.exists_path(svp, npos(f, apps))
+        all(not g.exists_path([y for (y, l2) in g.succ.get(tnode(g, b), ()) if l2 == other(l)], tail, avoid_nodes=heads) for (b, l) in nulls)
+    if fmt_fn is f:
+        after = bool(svp) and not g.exists_path(svp, npos(f, apps))
+    else:
+        hp = npos(fmt_fn, hcalls)
+        after = bool(svp) and bool(hp) and not fmt_fn.g.exists_path(svp, hp) and all(fmt_fn.g.dominates(hp, p_) for p_ in svp)
     ctx.ob("C12.R2i", "format:named-args-text", order_ok and bounds_ok and sep_ok and only_when_present and after,
            "every pair of the list, from the first (index 0) to the last (i < size()), is appended as key, ': ', value in that order (%s, "
            "bounds %s), ', ' exactly when it is not the last pair (%s); the loop runs exactly when the statement has a list (%s) and the "
            "attribute is set from the finished buffer (%s)" % (seq, bounds_ok, sep_ok, only_when_present, after), fn=f)
     # tags
+    f, g = fmt_fn, fmt_fn.g
     tagsets = [c for c in f.calls(r"PatternFormatter::_set_arg_val<") if targ_index(c["callee"], "_set_arg_val") is not None and
                any(is_call(x, r"MacroMetadata::tags$") for x in walk(c))]
     tedges = []
